@@ -413,6 +413,24 @@ func dispatch(e *env, c Case, a, b, cc string) string {
 			if len(sigs) > 0 {
 				sigs[0] = nil
 			}
+		case "more-messages":
+			msgs = append(msgs, e.msg)
+		case "more-hashers":
+			hs = append(hs, e.hasher)
+		case "more-signatures":
+			sigs = append(sigs, e.bytesOf("exact", e.sig))
+		case "fewer-keys":
+			if len(pks) > 0 {
+				pks = pks[1:]
+			}
+		case "ecdsa-key":
+			if len(pks) > 0 {
+				pks[e.rng.Intn(len(pks))] = e.ecSK.PublicKey()
+			}
+		case "small-hasher":
+			if len(hs) > 0 {
+				hs[0] = e.hasherOf("small", true)
+			}
 		}
 		if c.Fn == "VerifyBLSSignatureManyMessages" {
 			ok, err := crypto.VerifyBLSSignatureManyMessages(pks, e.bytesOf(b, e.sig), msgs, hs)
@@ -421,6 +439,8 @@ func dispatch(e *env, c Case, a, b, cc string) string {
 		var h hash.Hasher = e.hasher
 		if cc == "nil-hasher" {
 			h = nil
+		} else if cc == "small-hasher" {
+			h = e.hasherOf("small", true)
 		}
 		oks, err := crypto.BatchVerifyBLSSignaturesOneMessage(pks, sigs, e.msg, h)
 		all := true
@@ -525,6 +545,210 @@ func dispatch(e *env, c Case, a, b, cc string) string {
 			}
 			_, err = insp.ThresholdSignature()
 		}
+		return classify(true, err)
+	case "NewBLSThresholdSignatureParticipant":
+		n := map[string]int{"nil": -1, "empty": 0, "one": 1, "two": 2, "many": 9}[cc]
+		var pks []crypto.PublicKey
+		var sks []crypto.PrivateKey
+		if n >= 2 {
+			t := n - 1
+			if n > 2 {
+				t = n / 2
+			}
+			sks, pks, _, _ = crypto.BLSThresholdKeyGen(n, t, make([]byte, 32))
+		} else {
+			for i := 0; i < n; i++ {
+				sks = append(sks, e.validKey(crypto.BLSBLS12381))
+				pks = append(pks, sks[i].PublicKey())
+			}
+		}
+		hi := n - 1
+		if hi < 1 {
+			hi = 1
+		}
+		mi := n - 1
+		if mi < 0 {
+			mi = 0
+		}
+		me := intOf(b, 0, mi)
+		var own crypto.PrivateKey = e.blsSK
+		if me >= 0 && me < len(sks) {
+			own = sks[me]
+		}
+		_, err := crypto.NewBLSThresholdSignatureParticipant(e.blsSK.PublicKey(), pks, intOf(a, 1, hi), me, own, e.msg, "verif")
+		return classify(true, err)
+	case "ThresholdConstructorKeys":
+		const n, t = 4, 2
+		sks, pks, gpk, _ := crypto.BLSThresholdKeyGen(n, t, make([]byte, 32))
+		if a == "ecdsa" {
+			gpk = e.ecSK.PublicKey()
+		}
+		if b == "ecdsa" {
+			pks[n-1] = e.ecSK.PublicKey()
+		}
+		var err error
+		switch cc {
+		case "none":
+			_, err = crypto.NewBLSThresholdSignatureInspector(gpk, pks, t, e.msg, "verif")
+		case "match":
+			_, err = crypto.NewBLSThresholdSignatureParticipant(gpk, pks, t, 1, sks[1], e.msg, "verif")
+		case "otherbls":
+			_, err = crypto.NewBLSThresholdSignatureParticipant(gpk, pks, t, 1, sks[2], e.msg, "verif")
+		default:
+			_, err = crypto.NewBLSThresholdSignatureParticipant(gpk, pks, t, 1, e.ecSK, nil, "")
+		}
+		return classify(true, err)
+	case "ParticipantOp":
+		const n, t = 5, 2
+		sks, pks, gpk, _ := crypto.BLSThresholdKeyGen(n, t, make([]byte, 32))
+		part, err := crypto.NewBLSThresholdSignatureParticipant(gpk, pks, t, n-1, sks[n-1], e.msg, "verif")
+		if err != nil {
+			return "untyped:" + err.Error()
+		}
+		idx := intOf(b, 0, n-1)
+		vi := idx
+		if vi < 0 || vi >= n {
+			vi = 0
+		}
+		valid, _ := sks[vi].Sign(e.msg, crypto.NewExpandMsgXOFKMAC128("verif"))
+		share := e.bytesOf(cc, valid)
+		switch a {
+		case "TrustedAdd":
+			_, err = part.TrustedAdd(idx, share)
+		case "VerifyAndAdd":
+			_, _, err = part.VerifyAndAdd(idx, share)
+		case "VerifyShare":
+			_, err = part.VerifyShare(idx, share)
+		case "HasShare":
+			_, err = part.HasShare(idx)
+		case "VerifyThresholdSignature":
+			_, err = part.VerifyThresholdSignature(share)
+		case "SignShare":
+			var own crypto.Signature
+			own, err = part.SignShare()
+			if err == nil {
+				_, _, err = part.VerifyAndAdd(n-1, own)
+			}
+		case "ThresholdSignatureAfterAdds":
+			for i := 0; i <= t; i++ {
+				part.TrustedAdd(i, share)
+			}
+			part.EnoughShares()
+			_, err = part.ThresholdSignature()
+		}
+		return classify(true, err)
+	case "VerifyBLSSignatureOneMessageKeys":
+		n := map[string]int{"nil": -1, "empty": 0, "one": 1, "two": 2, "many": 9}[a]
+		var pks []crypto.PublicKey
+		if n >= 0 {
+			pks = make([]crypto.PublicKey, n)
+			for i := range pks {
+				pks[i] = e.validKey(crypto.BLSBLS12381).PublicKey()
+			}
+			if n > 0 && b == "ecdsa" {
+				pks[e.rng.Intn(n)] = e.ecSK.PublicKey()
+			}
+		}
+		ok, err := crypto.VerifyBLSSignatureOneMessage(pks, e.sig, e.msg, e.hasher)
+		if n <= 0 && err != nil && typedErr(err) {
+			return "reject"
+		}
+		return classify(ok, err)
+	case "SPOCKVerifyAgainstData":
+		pk := e.blsSK.PublicKey()
+		if a == "ecdsa" {
+			pk = e.ecSK.PublicKey()
+		}
+		ok, err := crypto.SPOCKVerifyAgainstData(pk, e.bytesOf(b, e.sig), e.msg, e.hasherOf(cc, true))
+		return classify(ok, err)
+	case "IsBLSSignatureIdentity":
+		_ = crypto.IsBLSSignatureIdentity(e.bytesOf(a, e.sig))
+		id := make([]byte, 48)
+		id[0] = 0xC0
+		_ = crypto.IsBLSSignatureIdentity(e.bytesOf(a, id))
+		return "ok"
+	case "SignatureAndHashHelpers":
+		sg := crypto.Signature(e.bytesOf(a, e.sig))
+		_ = sg.String()
+		_ = sg.Bytes()
+		h := hash.Hash(e.bytesOf(a, e.sig))
+		_ = h.Hex()
+		_ = h.String()
+		_ = h.Equal(hash.Hash(e.sig))
+		_ = h.Equal(nil)
+		_ = crypto.BLSInvalidSignature()
+		return "ok"
+	case "KeyEquals":
+		k1, k2 := e.validKey(algoOf(a)), e.validKey(algoOf(b))
+		_ = k1.Equals(k2)
+		_ = k1.PublicKey().Equals(k2.PublicKey())
+		_ = k2.Equals(k1)
+		_ = k1.String() + k1.PublicKey().String()
+		_ = k1.Size() + k1.PublicKey().Size()
+		_ = k1.PublicKey().EncodeCompressed()
+		return "ok"
+	case "NewExpandMsgXOFKMAC128":
+		tg := map[string]string{"empty": "", "short": "t", "huge": string(make([]byte, 5000))}[a]
+		h := crypto.NewExpandMsgXOFKMAC128(tg)
+		sg, err := e.blsSK.Sign(e.msg, h)
+		if err != nil {
+			return classify(true, err)
+		}
+		ok, err := e.blsSK.PublicKey().Verify(sg, e.msg, crypto.NewExpandMsgXOFKMAC128(tg))
+		return classify(ok, err)
+	case "EncodePermutation":
+		l := map[string][]int{"nil": nil, "empty": {}, "perm": {2, 0, 3, 1}, "notperm": {7, 7, -1, 1 << 40}}[a]
+		_ = random.EncodePermutation(l)
+		return "ok"
+	case "PRGRead":
+		g, err := random.NewChacha20PRG(make([]byte, 32), nil)
+		if err != nil {
+			return "untyped:" + err.Error()
+		}
+		n := map[string]int{"nil": -1, "empty": 0, "one": 1, "64": 64, "65": 65, "big": 100000}[a]
+		var buf []byte
+		if n >= 0 {
+			buf = make([]byte, n)
+		}
+		g.Read(buf)
+		st := g.Store()
+		g2, err := random.RestoreChacha20PRG(st)
+		if err != nil {
+			return "untyped:" + err.Error()
+		}
+		g2.Read(buf)
+		return "ok"
+	case "DKGStart":
+		const n, t = 3, 1
+		me := 1
+		if b == "dealer" {
+			me = 0
+		}
+		var st crypto.DKGState
+		switch a {
+		case "fvss":
+			st, _ = crypto.NewFeldmanVSS(n, t, me, dkgProc{}, 0)
+		case "qual":
+			st, _ = crypto.NewFeldmanVSSQual(n, t, me, dkgProc{}, 0)
+		default:
+			st, _ = crypto.NewJointFeldman(n, t, me, dkgProc{})
+		}
+		ln := map[string]int{"nil": -1, "empty": 0, "31": 31, "32": 32, "256": 256, "huge": 10000}[cc]
+		var sd []byte
+		if ln >= 0 {
+			sd = make([]byte, ln)
+			e.rng.Read(sd)
+		}
+		err := st.Start(sd)
+		// whatever Start answered, the instance must survive the rest of a run: complaints addressed to it, timeouts, End
+		for o := 0; o < n; o++ {
+			st.HandleBroadcastMsg(o, []byte{2, byte(me)})
+			st.HandleBroadcastMsg(o, []byte{2, 0})
+			st.HandlePrivateMsg(o, append([]byte{0}, make([]byte, 32)...))
+		}
+		st.NextTimeout()
+		st.NextTimeout()
+		st.End()
 		return classify(true, err)
 	case "NewDKG", "NewDKGIndices":
 		var n, t, me, dl int
@@ -644,15 +868,19 @@ func dkgMessage(e *env, proto, phase string, raw json.RawMessage) string {
 	tag := byte(args[1].(float64))
 	size := args[2].(string)
 	orig := int(args[3].(float64))
+	me := 1
+	if len(args) > 4 && args[4].(string) == "dealer" {
+		me = 0
+	}
 	const n, t = 3, 1
 	var st crypto.DKGState
 	switch proto {
 	case "fvss":
-		st, _ = crypto.NewFeldmanVSS(n, t, 1, dkgProc{}, 0)
+		st, _ = crypto.NewFeldmanVSS(n, t, me, dkgProc{}, 0)
 	case "qual":
-		st, _ = crypto.NewFeldmanVSSQual(n, t, 1, dkgProc{}, 0)
+		st, _ = crypto.NewFeldmanVSSQual(n, t, me, dkgProc{}, 0)
 	default:
-		st, _ = crypto.NewJointFeldman(n, t, 1, dkgProc{})
+		st, _ = crypto.NewJointFeldman(n, t, me, dkgProc{})
 	}
 	sd := make([]byte, 32)
 	if phase != "new" {
